@@ -80,9 +80,12 @@ C16_EXTRA = [dict(XD, name="xml_diff_roundtrip_e%d" % e, entry="h_xml_diff_round
                   bounds="one diff entry (%s) through the real exporter, an element tree and the real importer: same entry (concrete run)" % ["64-bit size change on a special (negative) depth", "name change", "info change"][e]) for e in (0, 1, 2)]
 C06_EXTRA.append(dict(XD, name="xml_import_diff", entry="h_import_diff", checks="safety+", encoded=["hwloc__xml_import_diff", "hwloc__xml_import_diff_one", "hwloc_topology_diff_destroy"], unwindset=dict(XT_UW, **{"h_import_diff.0": 11}), tiers={"quick": {}, "thorough": {}}, cost=30,
                       bounds="9 crafted <diff> elements (complete, missing type/depth/value/name, unknown attribute, other diff type, unknown attribute type, unknown element): 0/-1, nothing imported from an incomplete entry, what is imported can be destroyed"))
-for lo in range(0, 30, 3):
-    C06_EXTRA.append(dict(XT, name="xml_documents_%02d" % lo, entry="h_xml_documents", defines={"DOC_LO": lo, "DOC_HI": lo + 2}, encoded=["hwloc_look_xml", "hwloc__xml_import_object", "hwloc__xml_import_object_attr", "hwloc__xml_import_obj_info", "hwloc__xml_import_pagetype", "hwloc_discover", "hwloc_topology_clear", "hwloc_topology_setup_defaults", "hwloc_filter_levels_keep_structure"],
+C06_EXTRA.append(dict(XT, name="xml_load_failure", entry="h_load_failure", encoded=["hwloc_topology_load", "hwloc_discover", "hwloc_look_xml", "hwloc_topology_clear", "hwloc_topology_setup_defaults", "hwloc_topology_set_flags", "hwloc_topology_set_type_filter"], tiers={"quick": {}, "thorough": {}}, cost=60,
+                      stubs=XT["stubs"] + ["component enabling, this-system detection, binding hooks: no-ops (the backend is the element-tree XML backend)"],
+                      bounds="the REAL hwloc_topology_load on a refused 3-object document, then reconfiguration and a second load from a valid document (concrete run): the documented 'reinitialized, may be configured and loaded again'"))
+for lo in range(0, 36, 3):
+    C06_EXTRA.append(dict(XT, name="xml_documents_%02d" % lo, entry="h_xml_documents", defines={"DOC_LO": lo, "DOC_HI": min(lo + 2, 33)}, encoded=["hwloc_look_xml", "hwloc__xml_import_object", "hwloc__xml_import_object_attr", "hwloc__xml_import_obj_info", "hwloc__xml_import_pagetype", "hwloc_discover", "hwloc_topology_clear", "hwloc_topology_setup_defaults", "hwloc_filter_levels_keep_structure"],
                           unwindset=dict(XT_UW, **{"h_xml_documents.0": 5}), tiers={"quick": {}, "thorough": {}}, cost=90,
-                          bounds="crafted documents %d..%d of 30 (a 4-object base document with one defect or one unusual but legal feature each: PU/NUMA set mismatches, missing or misplaced sets, illegal parent/child kinds, bad cache depth, unknown types/tags/attributes, missing root nodeset, out-of-order children, future types, mergeable Group, page types, incomplete distances) through the real hwloc_look_xml inside the real discovery pipeline; on success the independent C01 checker, on failure the clean-up of hwloc_topology_load" % (lo, lo + 2)))
+                          bounds="crafted documents %d..%d of 34 (a 4-object base document with one defect or one unusual but legal feature each: PU/NUMA set mismatches, missing or misplaced sets, illegal parent/child kinds, bad cache depth, unknown types/tags/attributes, missing root nodeset, out-of-order children, future types, mergeable Group, page types, incomplete distances) through the real hwloc_look_xml inside the real discovery pipeline; on success the independent C01 checker, on failure the clean-up of hwloc_topology_load" % (lo, min(lo + 2, 33))))
 OUTSIDE = ["export -> import of whole topologies (tree, sets, attributes, distances, memory attributes, CPU kinds): the text is thousands of characters long, far beyond what bounded symbolic execution of the printers and tokenizers concludes on",
            "libxml2 backend (foreign library code), file I/O, v2 format, byte-identical re-export"]
